@@ -119,6 +119,10 @@ const (
 // MutationKinds are the single-token mutations of a valid description.
 var MutationKinds = []string{"delete", "wrong", "unterminated", "illegal", "trunc", "dup", "swap", "unmapped"}
 
+// Numbers are boundary literals put in place of every number of a description (mutation "number").
+var Numbers = []string{"0", "255", "256", "32767", "32768", "65535", "65536", "65537", "2147483648", "4294967296",
+	"1234567890123456789012345", "-1", "-32768", "-32769", "-65536", "+5"}
+
 func wrongKind(s string, t Token) string {
 	switch t.Kind {
 	case "ident":
